@@ -124,6 +124,7 @@ type Engine struct {
 	nameSeen     map[string]int
 	divCache     map[string][2]*smt.Term
 	constTables  map[string]bool
+	wstreamKeys  []*smt.Term // writers the function under verification may append to (assigns wstream(..))
 	topFrameRule func(e *Engine, st *State, ref *smt.Term, kind string, pos string)
 	CheckNarrow  bool      // emit 'narrow' obligations for value-changing integer conversions
 	OwnCheck     bool      // ownership discipline of deep copies (C17)
